@@ -206,6 +206,11 @@ func run(dec string, in []byte, class string) resp {
 		return resp{Class: "dup"}
 	}
 	seenIn[k] = struct{}{}
+	if failCount[dec+"-hang"] >= 2 {
+		// the run is a VIOLATION already; every further hang costs the time-out
+		out.Count(dec+"/skipped-after-hang", k, false)
+		return resp{Class: "skipped"}
+	}
 	r := wk.call(dec, in)
 	if (strings.HasPrefix(dec, "hs:") || strings.HasPrefix(dec, "hr:")) && r.Class != "dead" && r.Class != "hang" && r.Alloc > thr(len(in))+r.Base {
 		// a whole connection: pooled buffers and writers (sync.Pool) are re-allocated after a
